@@ -562,6 +562,10 @@ PROPS['C19']['explanation'] = ('Two layers. (1) Verus, input byte strings of ANY
     '(2) Kani, bounded in the input length (labelled so): the same helpers plus arbitrary_vec, arbitrary_byte_array (pointer cast) and the CTAP1 request '
     'generator on the real monomorphised code. The derived generators of the large request types are out of reach (type too large for CBMC); hence level model_checking.')
 
+# the four string identifier tables (both directions) are proved by Verus for strings of any length (unit c18_string_tables)
+for _p in ('C18', 'C15'):
+    PROPS[_p]['verus'] = PROPS[_p].get('verus', []) + ['c18_string_tables']
+
 
 # Harnesses that were written and calibrated but cannot be discharged in this sandbox (CBMC exceeds the 24 GB address-space limit
 # or one hour, alone on the machine); they stay in /verif/kani for reference and are run by no check.  What they were meant to add is
